@@ -163,6 +163,39 @@ func (s *seqRunner) apply(op string) OpResult {
 			s.counters["hook-checks"]++
 		}
 	}
+	// the same for the refresh calculator: a write to an absent or expired key is a creation
+	if s.cfg.Refresh != "" && hasKey && res.Panic == "" {
+		f := strings.Fields(stripOpts(op))
+		_, present := m.get(k)
+		writes := false
+		switch f[0] {
+		case "set", "cw":
+			writes = true
+		case "sia", "cia":
+			writes = !present
+		case "cipw":
+			writes = present
+		}
+		if writes {
+			want := map[string]string{"creating": "rcreate", "writing": "rwrite"}[s.cfg.Refresh]
+			if present && s.cfg.Refresh == "creating" {
+				want = ""
+			}
+			got := ""
+			for _, h := range hooks {
+				if h.Key == k && (h.Hook == "rcreate" || h.Hook == "rwrite") {
+					got = h.Hook
+				}
+			}
+			if got != want {
+				what := "an update of a present entry"
+				if !present {
+					what = "a creation (the key was absent or expired)"
+				}
+				s.fail("hook-mismatch", name, "op %q is %s: expected the %q refresh hook to be consulted, observed %q", op, what, want, got)
+			}
+		}
+	}
 	preTotal := m.totalWeight()
 	m.added = 0
 	ex := m.Step(stripOpts(op), res, hooks, loads, s.deferred)
